@@ -165,14 +165,27 @@ def execute(op, inp, rid, tmpd):
         fs = build(inp['s'], inp.get('layout', 'c'), inp.get('lkey', 0))
         inp['s'] = enc(fs)                      # the logical array of the object actually written
         inp['mem'] = describe_layout(fs)
+        how = inp.get('how', 'keywords')
         try:
-            fs.to_file(path, precision=inp['p'], comment_lines=comments, foldmaskinfo=inp['fmi'])
+            if how == 'defaults':          # every optional argument left at its default (precision 16, no comments, foldmaskinfo, mask_corners)
+                fs.to_file(path)
+            elif how == 'alias':           # the documented aliases tofile / fromfile, positional arguments
+                fs.tofile(path, inp['p'], comments, inp['fmi'])
+            elif how == 'numpy-types':     # numpy integer precision, tuple of comment lines, numpy bools
+                fs.to_file(path, precision=np.int64(inp['p']), comment_lines=tuple(comments), foldmaskinfo=np.bool_(inp['fmi']))
+            else:
+                fs.to_file(path, precision=inp['p'], comment_lines=comments, foldmaskinfo=inp['fmi'])
         except Exception as e:
             rec['out'] = {'raised': type(e).__name__, 'stage': 'to_file', 'msg': str(e)[:100]}
             return rec
         out = {'file': file_record(read_text(path), len(comments) + 1)}
         try:
-            back, bc = dadi.Spectrum.from_file(path, mask_corners=inp['mc'], return_comments=True)
+            if how == 'defaults':
+                back, bc = dadi.Spectrum.from_file(path), []
+            elif how == 'alias':
+                back, bc = dadi.Spectrum.fromfile(path, inp['mc'], True)
+            else:
+                back, bc = dadi.Spectrum.from_file(path, mask_corners=inp['mc'], return_comments=True)
         except Exception as e:
             rec['out'] = {'raised': type(e).__name__, 'stage': 'from_file', 'msg': str(e)[:100], 'file': out['file']}
             return rec
@@ -203,14 +216,31 @@ def execute(op, inp, rid, tmpd):
         else:
             a['d'] = rats(np.asarray(data, dtype=float).ravel())
         inp['mem'] = describe_layout(data)
+        dt = inp.get('dtype', 'float64')
+        if dt != 'float64':
+            data = data.astype(dt)
+            a['d'] = rats(np.asarray(getattr(data, 'data', data), dtype=float).ravel())      # the values the array really holds
+        how = inp.get('how', 'keywords')
         try:
-            Numerics.array_to_file(data, path, precision=inp['p'], comment_lines=comments)
+            if how == 'defaults':
+                Numerics.array_to_file(data, path)
+            elif how == 'fileobj':          # an open file object instead of a name
+                with open(path, 'w') as fid:
+                    Numerics.array_to_file(data, fid, precision=inp['p'], comment_lines=comments)
+            else:
+                Numerics.array_to_file(data, path, precision=inp['p'], comment_lines=comments)
         except Exception as e:
             rec['out'] = {'raised': type(e).__name__, 'stage': 'to_file', 'msg': str(e)[:100]}
             return rec
         out = {'file': file_record(read_text(path), len(comments) + 1)}
         try:
-            back, bc = Numerics.array_from_file(path, return_comments=True)
+            if how == 'defaults':
+                back, bc = Numerics.array_from_file(path), []
+            elif how == 'fileobj':
+                with open(path, 'r') as fid:
+                    back, bc = Numerics.array_from_file(fid, return_comments=True)
+            else:
+                back, bc = Numerics.array_from_file(path, return_comments=True)
         except Exception as e:
             rec['out'] = {'raised': type(e).__name__, 'stage': 'from_file', 'msg': str(e)[:100], 'file': out['file']}
             return rec
@@ -299,7 +329,7 @@ def rand_abstract(rng, sh, folded=None):
 
 
 def rand_comments(rng):
-    return [chars(rng.choice(COMMENTS)) for _ in range(rng.choice([0, 0, 1, 2, 3, 5]))]
+    return [chars(rng.choice(COMMENTS)) for _ in range(rng.choice([0, 0, 1, 2, 3, 4, 5]))]
 
 
 def old_text(rng, s, p, comments, style):
@@ -384,9 +414,120 @@ def cases(ctx):
     for t in range(n_p):
         sh = rand_shape(rng, True)
         s = rand_abstract(rng, sh)
-        via = rng.choice(['pickle', 'pickle', 'pickle', 'deepcopy', 'copy'])
-        out.append(('pickle', {'s': s, 'x': rng.choice(['none', rat(1.0 / rng.randint(10, 200))]), 'protocol': t % (pickle.HIGHEST_PROTOCOL + 1), 'via': via,
+        via = ['pickle', 'pickle', 'pickle', 'deepcopy', 'copy'][t % 5]      # with protocol = t % 6: every protocol, deepcopy and copy
+        s['f'] = (t // 3) % 2 == 1
+        out.append(('pickle', {'s': s, 'x': ['none', rat(1.0 / rng.randint(10, 200))][(t // 6) % 2], 'protocol': t % (pickle.HIGHEST_PROTOCOL + 1), 'via': via,
                                'layout': rand_layout(rng, sh), 'lkey': rng.randrange(1000)}))
+    out += boundary_cases(ctx, rng)
+    return out
+
+
+EXTREMES = [1e-300, 1e300, -1e-300, -1e300, 0.0, float('nan'), float('inf'), float('-inf'), 1.0, 1.0000000000000002, 0.9999999999999999,
+            0.1, 1 / 3.0, 123456789012345678.0, 9.999999999999999e299, 1.0000000000000002e-300, 2.0 ** -1022, 5e-324]
+
+
+def boundary_cases(ctx, rng):
+    """Deterministic in both tiers: every element of the stated domain occurs at least once (each dimension count,
+    all-singleton shapes, two-digit axis, the end points 1e-300 / 1e300 and 0 / nan / inf, every precision, 0..5 comment lines and
+    every comment text, every label text, folded / unfolded, plain / gzip, current / pre-1.3 format, both mask_corners settings,
+    default arguments, aliases, file objects, array dtypes, every memory layout)."""
+    out = []
+    shapes = {1: [11], 2: [3, 4], 3: [2, 1, 3], 4: [2, 2, 1, 2], 5: [2, 1, 2, 2, 2]}
+    precs = [16, 17, 18, 19, 20, 25] + ([] if ctx.quick else [30, 40])
+    lab = itertools.cycle(LABELS)
+    com = itertools.cycle(COMMENTS)
+    n = itertools.count()
+
+    def spectrum(sh, f, mstyle, labelled=True, values=None):
+        size = int(np.prod(sh))
+        d = values if values is not None else [rand_value(rng) for _ in range(size)]
+        m = [False] * size
+        if mstyle in (1, 2):
+            m[0] = m[-1] = True
+        if mstyle == 2:
+            m = [b or j % 3 == 1 for j, b in enumerate(m)]
+        if mstyle == 3:
+            m = [True] * size
+        return {'sh': sh, 'd': rats(d), 'm': m, 'f': f, 'ids': [chars(next(lab)) for _ in sh] if labelled else []}
+
+    def comments(k):
+        return [chars(next(com)) for _ in range(k)]
+    # each dimension count x plain/gzip x folded/unfolded; comment counts 0..5, precisions, mask styles, layouts cycle
+    for d in (1, 2, 3, 4, 5):
+        for gz in (False, True):
+            for f in (False, True):
+                t = next(n)
+                out.append(('roundtrip', {'s': spectrum(shapes[d], f, t % 4, labelled=(t % 5 != 4)), 'p': precs[t % len(precs)], 'comments': comments(t % 6),
+                                          'fmi': True, 'gz': gz, 'mc': t % 2 == 1, 'layout': LAYOUTS[t % 5], 'lkey': t}))
+        # the pre-1.3 format written by to_file(foldmaskinfo=False)
+        for gz in (False, True):
+            t = next(n)
+            out.append(('roundtrip', {'s': spectrum(shapes[d], False, t % 3), 'p': precs[t % len(precs)], 'comments': comments(t % 6),
+                                      'fmi': False, 'gz': gz, 'mc': t % 2 == 0, 'layout': LAYOUTS[(t + 1) % 5], 'lkey': t}))
+    for sh in ([1, 1, 1], [1, 1], [1, 5, 1]):        # singleton axes only / around one real axis
+        t = next(n)
+        out.append(('roundtrip', {'s': spectrum(sh, t % 2 == 0, t % 3), 'p': 16, 'comments': comments(4), 'fmi': True, 'gz': t % 2 == 1, 'mc': False,
+                                  'layout': 'c', 'lkey': t}))
+    # the end points of the value range and the special values, at every precision
+    for p in precs:
+        for sh, lay in (([len(EXTREMES)], 'slice'), ([3, 6], 'fortran')):
+            t = next(n)
+            out.append(('roundtrip', {'s': spectrum(sh, False, 0, values=list(EXTREMES)), 'p': p, 'comments': comments(t % 3), 'fmi': True,
+                                      'gz': p in (16, 20), 'mc': False, 'layout': lay, 'lkey': t}))
+    # genuinely folded spectra: folded-out entries are zero and masked
+    for sh in ([6], [3, 4], [2, 2, 3]):
+        size = int(np.prod(sh))
+        tot = sum(v - 1 for v in sh)
+        idx = list(itertools.product(*[range(v) for v in sh]))
+        outm = [sum(ix) > tot // 2 for ix in idx]
+        d = [0.0 if o else 10.0 ** rng.uniform(-3, 3) for o in outm]
+        for gz in (False, True):
+            s_ = {'sh': sh, 'd': rats(d), 'm': [o or j in (0, size - 1) for j, o in enumerate(outm)], 'f': True, 'ids': [chars(next(lab)) for _ in sh]}
+            out.append(('roundtrip', {'s': s_, 'p': 17, 'comments': comments(1), 'fmi': True, 'gz': gz, 'mc': True, 'layout': 'reorder' if len(sh) > 1 else 'c', 'lkey': next(n)}))
+    # call forms: defaults only, aliases with positional arguments, numpy argument types
+    for how in ('defaults', 'alias', 'numpy-types'):
+        for gz in (False, True):
+            t = next(n)
+            dflt = how == 'defaults'
+            out.append(('roundtrip', {'s': spectrum([3, 3], t % 2 == 0, 0 if dflt else 1), 'p': 16 if dflt else 18, 'comments': [] if dflt else comments(2),
+                                      'fmi': True if dflt else t % 2 == 0, 'gz': gz, 'mc': True if dflt else t % 2 == 1, 'layout': 'c', 'lkey': t, 'how': how}))
+    # hand-written files: both formats x every blank style x both mask_corners settings, one of each format gzipped
+    for old in (True, False):
+        for style in ('plain', 'wide', 'tab'):
+            for mc in (False, True):
+                t = next(n)
+                s_ = spectrum(shapes[1 + t % 3], (not old) and t % 2 == 0, t % 3)
+                cm = comments(t % 4)
+                text = (old_text if old else new_text)(rng, s_, 17, cm, style)
+                inp = {'file': file_record(text, len(cm) + 1), 'text': text, 'mc': mc, 'gz': style == 'wide' and mc,
+                       'origin': ('pre-1.3 ' if old else 'current ') + style}
+                out.append(('from_file', inp))
+                if old:
+                    out.append(('array_from_file', {'file': inp['file'], 'text': text, 'origin': inp['origin']}))
+    # generic array writer / reader: each dimension count, masked and not, every precision, file objects, defaults, dtypes
+    for d in (1, 2, 3, 4, 5):
+        for masked in (False, True):
+            t = next(n)
+            s_ = spectrum(shapes[d], False, 2 if masked else 0, labelled=False)
+            out.append(('array_roundtrip', {'a': {'sh': s_['sh'], 'd': s_['d'], 'm': s_['m']}, 'p': precs[t % len(precs)], 'comments': comments(t % 6),
+                                            'layout': LAYOUTS[t % 5], 'lkey': t, 'how': 'fileobj' if t % 3 == 0 else 'keywords'}))
+    t = next(n)
+    out.append(('array_roundtrip', {'a': {'sh': [len(EXTREMES)], 'd': rats(list(EXTREMES)), 'm': [False] * len(EXTREMES)}, 'p': 16, 'comments': [],
+                                    'layout': 'c', 'lkey': t, 'how': 'defaults'}))
+    out.append(('array_roundtrip', {'a': {'sh': [2, 9], 'd': rats(list(EXTREMES)), 'm': [False] * len(EXTREMES)}, 'p': 20, 'comments': comments(5),
+                                    'layout': 'transpose', 'lkey': t, 'how': 'fileobj'}))
+    for dt in ('float32', 'int64', 'int32'):
+        vals = [float(rng.randint(-5000, 5000)) for _ in range(6)]
+        out.append(('array_roundtrip', {'a': {'sh': [2, 3], 'd': rats(vals), 'm': [False] * 6}, 'p': 16, 'comments': comments(1),
+                                        'layout': 'c', 'lkey': 0, 'dtype': dt}))
+    out.append(('array_roundtrip', {'a': {'sh': [5], 'd': rats([0.1, 1 / 3.0, 1e-30, 2.5e30, 7.0]), 'm': [False] * 5}, 'p': 17, 'comments': [],
+                                    'layout': 'c', 'lkey': 0, 'dtype': 'float32'}))
+    # pickle: every dimension count and layout, folded / labelled / extrap_x present or not
+    for d in (1, 2, 3, 4, 5):
+        for via in ('pickle', 'deepcopy', 'copy'):
+            t = next(n)
+            out.append(('pickle', {'s': spectrum(shapes[d], t % 2 == 0, t % 4, labelled=t % 3 != 0), 'x': ['none', rat(0.0125)][t % 2],
+                                   'protocol': t % (pickle.HIGHEST_PROTOCOL + 1), 'via': via, 'layout': LAYOUTS[t % 5], 'lkey': t}))
     return out
 
 
@@ -435,11 +576,11 @@ def nontrivial(r):
     i = r['in']
     if r['op'] == 'roundtrip':
         s = i['s']
-        return ('rt', tuple(s['sh']), s['f'], tuple(''.join(l) for l in s['ids']), i['p'], len(i['comments']), i['fmi'], i['gz'], i['mc'], tuple(s['m']), i.get('layout'))
+        return ('rt', tuple(s['sh']), s['f'], tuple(''.join(l) for l in s['ids']), i['p'], len(i['comments']), i['fmi'], i['gz'], i['mc'], tuple(s['m']), i.get('layout'), i.get('how'))
     if r['op'] in ('from_file', 'array_from_file'):
         return (r['op'], i['origin'], i.get('gz'), i.get('mc'), len(i['file']['pre']), len(i['file']['body'][0]) if i['file']['body'] else 0)
     if r['op'] == 'array_roundtrip':
-        return ('arr', tuple(i['a']['sh']), any(i['a']['m']), i['p'], len(i['comments']), i.get('layout'))
+        return ('arr', tuple(i['a']['sh']), any(i['a']['m']), i['p'], len(i['comments']), i.get('layout'), i.get('how'), i.get('dtype'))
     s = i['s']
     return ('pickle', tuple(s['sh']), s['f'], bool(s['ids']), i['x'] != 'none', i['protocol'], i['via'], i.get('layout'))
 
